@@ -148,6 +148,14 @@ def run_case(case):
         else:
             g0.add_nodes_from(extra)
         d += "+%d isolated" % len(extra)
+    if rng.random() < 0.2:
+        # the graph as the library's own Network class holds it (edges put in through its helpers, no edge attributes yet)
+        net = sut("Network()", gcmpy.Network)
+        sut("Network.add_edges_from", net.add_edges_from, list(g0.edges()))
+        Gn = sut("Network.G", lambda: net.G)
+        Gn.add_nodes_from(g0.nodes())
+        g0 = Gn
+        res.count("graphs_held_by_a_library_Network_object")
     if any(deg == 0 for _, deg in g0.degree()):
         res.count("isolated_vertex_graphs")
     max_size = rng.choice([0, 0, 2, 3, 4, 5])
